@@ -16,12 +16,15 @@ RULE = ("seeded histories of 30 (quick) / 120 (thorough) interleaved calls on SH
         "connect_coding_graph, create_random_shuffles, the four conversions, obtain_*, remove_useless, approximate_capacity, "
         "calculate_intersection_score, path_matching, the calculus_* and number conversions; every call: arguments bit-for-bit equal to a "
         "pickled snapshot taken before, result equal to the result of the same call made first in a fresh interpreter state (thorough: in a "
-        "fresh subprocess) and equal with verbose on (stdout discarded); non-trivial = every history")
+        "fresh subprocess) and equal with verbose on (stdout discarded); plus the progress monitor on its whole contract domain (current == 0 or total != 0, "
+        "0..6) and approximate_capacity with 0..3 iterations, silent versus verbose; non-trivial = every history")
 EXHAUSTIVE = {"quick": False, "thorough": False}
 CHUNK = 1
 
 
 def cases(tier, rng):
+    yield {"kind": "monitor", "nt": True}
+    yield {"kind": "capacity-boundary", "nt": True}
     for i in range(48 if tier == "quick" else 200):
         yield {"seed": rng.getrandbits(32), "calls": 30 if tier == "quick" else 120, "cfg": i % len(gen.FILTER_GRID),
                "subprocess": tier != "quick" and i % 10 == 0, "nt": True}
@@ -116,6 +119,34 @@ def run_call(shape, verbose=False):
 
 def check(case):
     fails = []
+    if case.get("kind") == "monitor":
+        # the progress monitor on its whole contract domain (current == 0 or total != 0; pyvc assumes exactly this contract at every call site)
+        from dsw import Monitor
+        for cur in range(0, 7):
+            for tot in range(0, 7):
+                if cur == 0 or tot != 0:
+                    buf = io.StringIO()
+                    with contextlib.redirect_stdout(buf):
+                        o = outcome(Monitor(), cur, tot)
+                        o2 = outcome(Monitor(), cur, tot, extra={"valid": cur})
+                    for o_ in (o, o2):
+                        if o_ != ("ok", None):
+                            fails.append(("monitor:raises-or-returns", f"Monitor()({cur}, {tot}) -> {o_!r} (progress output must neither raise nor return a value)"))
+        return fails
+    if case.get("kind") == "capacity-boundary":
+        import dsw
+        acc = gen.complete(2)
+        for kw in ({"maximum_iteration": 0}, {"maximum_iteration": 1}, {"maximum_iteration": 3}, {"repeats": 2, "maximum_iteration": 2}, {"process": True, "maximum_iteration": 2}):
+            res = []
+            for verbose in (False, True):
+                buf = io.StringIO()
+                with contextlib.redirect_stdout(buf):
+                    random.seed(5)
+                    numpy.random.seed(5)
+                    res.append(outcome(dsw.approximate_capacity, acc, verbose=verbose, limit=60, **kw))
+            if not same(res[0], res[1]):
+                fails.append(("result-depends-on-verbose:capacity-boundary", f"approximate_capacity(complete order-2 graph, {kw}): silent {str(res[0])[:120]} vs verbose {str(res[1])[:120]}"))
+        return fails
     sh = build(case["seed"], case["cfg"])
     shapes = call_shapes(sh)
     r = random.Random(case["seed"] ^ 0x5A5A)
